@@ -20,16 +20,16 @@ m = {
         "add_only": True,
     },
     "engines": [
-        {"name": "lean-model", "path": "lean/OrbitModel", "serves_properties": sorted(PROPS), "kind_free_text": "Lean 4 model (L0), specifications (L1), kernel-checked refinement and property theorems; Audit.lean measures axioms and obligation cones"},
-        {"name": "hlight", "path": "harness", "serves_properties": sorted(PROPS), "kind_free_text": "Go correspondence harness driving the real stores/replicator over a fake IPFS and scripted transports; emits the line protocol the Lean driver replays"},
-        {"name": "driver", "path": "lean/OrbitModel/Driver", "serves_properties": sorted(PROPS), "kind_free_text": "compiled Lean executable: replays traces through the model (correspondence) and evaluates each property's L1 predicate on the implementation's observations"},
+        {"name": "lean-model", "path": "lean/OrbitModel", "serves_properties": sorted(MANIFEST_TEXT), "kind_free_text": "Lean 4 model (L0), specifications (L1), kernel-checked refinement and property theorems; Audit.lean measures axioms and obligation cones"},
+        {"name": "hlight", "path": "harness", "serves_properties": sorted(MANIFEST_TEXT), "kind_free_text": "Go correspondence harness driving the real stores/replicator over a fake IPFS and scripted transports; emits the line protocol the Lean driver replays"},
+        {"name": "driver", "path": "lean/OrbitModel/Driver", "serves_properties": sorted(MANIFEST_TEXT), "kind_free_text": "compiled Lean executable: replays traces through the model (correspondence) and evaluates each property's L1 predicate on the implementation's observations"},
     ],
     "checks": [],
     "notes": "All checks are ./check <id>; see DESIGN.md. A KNOWN-FINDING line names a defect of the pinned tree listed in known_findings.json.",
     "not_applicable": [],
 }
 for i in ids:
-    if i in PROPS:
+    if i in PROPS and i in MANIFEST_TEXT:
         t = MANIFEST_TEXT[i]
         m["checks"].append({
             "property_id": i,
